@@ -1,6 +1,8 @@
 // flipifs rewrites, in place, the non-test Go files of a scratch copy of the repository:
 //
 //	mode "else": every `if c { A } else { B }` (B a block) becomes `if !(c) { B } else { A }`
+//	mode "guard": in a function body, the first `if c { ...; return }` (no else) followed by more statements becomes
+//	              `if !(c) { <the rest of the body> } else { ...; return }`
 //	mode "neg":  every `x == y` / `x != y` at the top of an if condition becomes `!(x != y)` / `!(x == y)`
 //
 // The result is the same program. It is a self-test aid for the checker (no rule may depend on which way round a
@@ -40,6 +42,59 @@ func main() {
 			off := func(pos token.Pos) int { return fset.Position(pos).Offset }
 			text := func(nd ast.Node) string { return string(src[off(nd.Pos()):off(nd.End())]) }
 			var edits []edit
+			if mode == "guard" {
+				for _, dcl := range f.Decls {
+					fd, ok := dcl.(*ast.FuncDecl)
+					if !ok || fd.Body == nil {
+						continue
+					}
+					named := false
+					if fd.Type.Results != nil {
+						for _, r := range fd.Type.Results.List {
+							if len(r.Names) > 0 {
+								named = true
+							}
+						}
+					}
+					if named {
+						continue // a declaration moved into the new block could shadow a named result
+					}
+					list := fd.Body.List
+					for i, st := range list {
+						is, ok := st.(*ast.IfStmt)
+						if !ok || is.Else != nil || is.Init != nil || i == len(list)-1 || len(is.Body.List) == 0 {
+							continue
+						}
+						if _, isRet := is.Body.List[len(is.Body.List)-1].(*ast.ReturnStmt); !isRet {
+							continue
+						}
+						hasRes := fd.Type.Results != nil && len(fd.Type.Results.List) > 0
+						_, lastRet := list[len(list)-1].(*ast.ReturnStmt)
+						if hasRes && !lastRet {
+							continue
+						}
+						// labels or gotos in the rest: leave
+						bad := false
+						for _, r := range list[i+1:] {
+							ast.Inspect(r, func(x ast.Node) bool {
+								switch x.(type) {
+								case *ast.LabeledStmt:
+									bad = true
+								}
+								return true
+							})
+						}
+						if bad {
+							break
+						}
+						rest := string(src[off(list[i+1].Pos()):off(list[len(list)-1].End())])
+						edits = append(edits, edit{off(is.Pos()), off(list[len(list)-1].End()),
+							"if !(" + text(is.Cond) + ") {\n" + rest + "\n} else " + text(is.Body)})
+						n++
+						break
+					}
+				}
+			}
 			ast.Inspect(f, func(nd ast.Node) bool {
 				is, ok := nd.(*ast.IfStmt)
 				if !ok {
